@@ -602,6 +602,9 @@ func (f *e1func) higherOrderFacts(st *fstate, cond ast.Expr, val bool) []*Term {
 		return nil
 	}
 	ct := f.tb.callTerm(call)
+	if os.Getenv("E1DEBUG") != "" {
+		fmt.Fprintf(os.Stderr, "higherOrder? %s K=%s S=%s\n", ct, ct.K, ct.S)
+	}
 	if ct.K != "call" || ct.S != "slices.ContainsFunc" {
 		return nil
 	}
@@ -617,10 +620,16 @@ func (f *e1func) higherOrderFacts(st *fstate, cond ast.Expr, val bool) []*Term {
 			}
 		}
 	}
+	if os.Getenv("E1DEBUG") != "" {
+		fmt.Fprintf(os.Stderr, "higherOrder pre %s lit=%v depth=%d\n", ct, lit != nil, f.depth)
+	}
 	if lit == nil || f.depth >= e1InlineDepth {
 		return nil
 	}
 	pfi := f.eng.c.P.FuncOfNode(lit)
+	if os.Getenv("E1DEBUG") != "" {
+		fmt.Fprintf(os.Stderr, "higherOrder enter %s lit=%v pfi=%v\n", ct, lit != nil, pfi != nil)
+	}
 	if pfi == nil || pfi.Sig == nil || pfi.Sig.Params().Len() != 1 || pfi.Sig.Results().Len() != 1 {
 		return nil
 	}
@@ -657,6 +666,8 @@ func (f *e1func) higherOrderFacts(st *fstate, cond ast.Expr, val bool) []*Term {
 				continue
 			}
 			cur := map[string]*Term{}
+			// the predicate's own temporaries are replaced by their definitions
+			es = g.projectLocals(es)
 			for k, fc := range es.facts {
 				if _, had := st.facts[k]; had {
 					continue
@@ -684,6 +695,16 @@ func (f *e1func) higherOrderFacts(st *fstate, cond ast.Expr, val bool) []*Term {
 	q := "all"
 	if val {
 		q = "some"
+	}
+	if os.Getenv("E1DEBUG") != "" {
+		fmt.Fprintf(os.Stderr, "higherOrder %s val=%v: %d ret sites, common=%v\n", ct, val, len(g.sites), sortedKeys(common))
+		for _, s := range g.sites {
+			if s.kind == "ret" {
+				for i, es := range s.states {
+					fmt.Fprintf(os.Stderr, "   ret %s ok=%v sure=%v: %v\n", s.term, s.ok[i], s.sure[i], es.sortedKeys())
+				}
+			}
+		}
 	}
 	var out []*Term
 	for _, k := range sortedKeys(common) {
